@@ -21,6 +21,9 @@ def gen_rt(seed, tier="quick"):
     scn = families.random_scenario(rng, nsims=(2, 3), nconns=(0, 3), until=(2, 4), weak=0.2, siblings=False, p_async=0.0, selfloops=0.0)
     scn["lazy"], scn["cache"] = rng.random() < 0.7, rng.random() < 0.7
     f, r = rng.choice([0.5, 1.0, 2.0]), rng.choice([0.5, 1.0, 2.0])
+    if rng.random() < 0.15:
+        # very short steps: rt_factor * time_resolution below a millisecond (binary fractions: exact on the virtual clock)
+        f, r = rng.choice([2.0 ** -12, 2.0 ** -6, 2.0 ** -10]), rng.choice([1.0, 2.0 ** -4, 0.5])
     K = f * r
     durs = rng.choice([[0], [0], [0, 1], [1, 2], [2, 4], [0, 3]])
     instant = durs == [0]
